@@ -159,6 +159,12 @@ func (r *runner) all(stream string, u *universe.NpmUniverse, maxRoots int) {
 	}
 	if _, res := r.c.Op("C06 classify " + table + " " + body); strings.HasPrefix(res, "ok ") {
 		for _, kv := range strings.Fields(res)[1:] {
+			if bs, ok := strings.CutPrefix(kv, "conflictcycle="); ok {
+				for _, b := range bs {
+					r.c.Count("hyp.conflictcycle.root=" + string(b))
+				}
+				continue
+			}
 			r.c.Count("hyp." + kv)
 		}
 	}
@@ -203,6 +209,10 @@ func run(c *fw.Ctx) {
 	// (5) with bundled (derived) packages: graph clauses only; answered by the extended model
 	for k := 0; k < c.N(160, 1500); k++ {
 		r.all("bundle", universe.GenNpm(c.Rng, universe.NpmGenOpts{Bundles: true, Small: k%3 == 0}), c.N(12, 0))
+	}
+	// (6) conflict cycles (F-C06-conflict-cycle): the template cycle and dense pinned universes
+	for k := 0; k < c.N(16, 150); k++ {
+		r.all("conflict", universe.GenNpmConflict(c.Rng), 0)
 	}
 	if os.Getenv("C06_SAMPLES") != "" {
 		c.Note("samples requested")
